@@ -1,5 +1,6 @@
 import PandoraModel.Properties.C09
 #print axioms Pandora.C09.specCell_indep
+#print axioms Pandora.C09.specCellWith_indep
 #print axioms Pandora.C09.cost_indep
 #print axioms Pandora.C09.outside_pixel_interval_nan
 #print axioms Pandora.C09.slice_of_larger
